@@ -6,7 +6,7 @@
    op script, EVERY sequence of writes.  c20_cfg_fixed is the code with fixes/C20-1 and C20-2 applied,
    c20_cfg_current the code as it stands; theorems quantified over cfg hold for both. *)
 From Coq Require Import List ZArith QArith Bool.
-From DuneV Require Import C20_Model C20_Spec C20_Proofs.
+From DuneV Require Import Params_gen C20_Model C20_Spec C20_Proofs.
 Import ListNotations.
 
 (* ---- construction: "holds exactly the given numbers (the first n of them, zero-filled when fewer are given)" *)
@@ -329,7 +329,7 @@ Theorem C20_api_misc : forall cfg st r o, nth_error (c20_regs st) r = Some o -> 
   (forall l, c20_step cfg st (C20_NeL r l) = (st, C20_ObsBool (negb (c20_veq (c20_vals st o) (c20_spec_construct (c20_size o) l))))) /\
   (forall l, c20_step cfg st (C20_ISubL r l) = c20_inplace st o (c20_vsub (c20_vals st o) (c20_spec_construct (c20_size o) l))) /\
   (forall l, c20_step cfg st (C20_AssignL r l) = c20_inplace st o (c20_spec_construct (c20_size o) l)) /\
-  c20_step cfg st C20_NewBadBuffer = (st, C20_ObsExc C20_ValueError).
+  (forall fok nd, fok = false \/ nd <> 1%nat -> c20_step cfg st (C20_NewBadBuffer fok nd) = (st, C20_ObsExc C20_ValueError)).
 Proof. exact P_api_misc. Qed.
 Print Assumptions C20_api_misc.
 
@@ -339,3 +339,204 @@ Example C20_setslice_nonvacuous :
   c20_dump (fst (c20_run c20_cfg_fixed c20_init ops)) = [(C20_Vec, [9#1; 0; 8#1; 0; 7#1]%Q); (C20_Arr, [9#1; 0; 8#1; 0; 7#1]%Q)] /\
   nth 4 (snd (c20_run c20_cfg_fixed c20_init ops)) C20_ObsNone = C20_ObsExc C20_ValueError.
 Proof. vm_compute; split; reflexivity. Qed.
+
+(* ================================================================== proof-deepening round ========================== *)
+(* ---- "from a ... buffer or NumPy array": the buffer constructor, modelled with its stride loop (self[i] = ptr[i*stride]).
+   For EVERY strided buffer inside the heap, any stride (also negative), any n and length: first n logical entries, zero
+   filled; any other element format or dimension is rejected with ValueError. *)
+Theorem C20_construct_buffer : forall n H cells, c20_strided cells -> Forall (fun a => (a < List.length H)%nat) cells ->
+  c20_construct_buffer n H true 1 (c20_buffer_info cells) = C20_Ok (c20_spec_construct n (c20_read_all H cells)) /\
+  (forall nd bi, nd <> 1%nat -> c20_construct_buffer n H true nd bi = C20_Exc C20_ValueError) /\
+  (forall nd bi, c20_construct_buffer n H false nd bi = C20_Exc C20_ValueError).
+Proof. exact P_construct_buffer. Qed.
+Print Assumptions C20_construct_buffer.
+
+(* ---- the hypotheses "inside the heap" and "strided" are invariants of every run: they hold for every object of every state
+   any op script can reach (slices of slices, views, copies, results) *)
+Theorem C20_reachable_objects : forall cfg ops r o, let st := fst (c20_run cfg c20_init ops) in
+  nth_error (c20_regs st) r = Some o -> c20_obj_ok (c20_H st) o /\ c20_strided (c20_cells o).
+Proof. exact P_reach_obj. Qed.
+Print Assumptions C20_reachable_objects.
+
+Theorem C20_slice_strided : forall cells a b c idx, c20_strided cells ->
+  c20_slice_indices (List.length cells) a b c = C20_Ok idx -> c20_strided (map (fun j => nth j cells 0%nat) idx).
+Proof. exact P_slice_strided_gen. Qed.
+Print Assumptions C20_slice_strided.
+
+(* hence, with no hypothesis on the state: FieldVector_n( R[r] ) for any register of any reachable state *)
+Theorem C20_construct_buffer_reachable : forall cfg ops n r o, let st := fst (c20_run cfg c20_init ops) in
+  nth_error (c20_regs st) r = Some o ->
+  c20_step cfg st (C20_NewFromBuf n r) = c20_push_new st C20_Vec (c20_spec_construct n (c20_vals st o)).
+Proof. exact P_construct_buffer_run. Qed.
+Print Assumptions C20_construct_buffer_reachable.
+
+(* and C20_numpy_view without its two hypotheses, for every array of every reachable state *)
+Theorem C20_numpy_view_reachable : forall cfg ops r o, cfg_npv_stride cfg = true ->
+  let st := fst (c20_run cfg c20_init ops) in
+  nth_error (c20_regs st) r = Some o -> c20_k o = C20_Arr ->
+  (forall i, (i < c20_size o)%nat -> c20_step cfg st (C20_NGet r i) = c20_step cfg st (C20_Get r (Z.of_nat i))) /\
+  (forall i x, (i < c20_size o)%nat -> c20_step cfg st (C20_NSet r i x) = c20_step cfg st (C20_Set r (Z.of_nat i) x)) /\
+  (forall q, c20_step cfg st (C20_NIMulS r q) = c20_inplace st o (c20_vscale q (c20_vals st o))).
+Proof.
+  intros cfg ops r o Hc st E Hk. destruct (P_reach_obj cfg ops r o E) as [Hok Hs].
+  destruct (P_numpy_view cfg st r o Hc E Hk Hok Hs) as [_ [H1 [H2 [_ [H3 _]]]]]. auto.
+Qed.
+Print Assumptions C20_numpy_view_reachable.
+
+Example C20_construct_buffer_nonvacuous :
+  let ops := [C20_New 5 [1#1; 2#1; 3#1; 4#1; 5#1]%Q; C20_Slice 0 None None (Some (-2)%Z); C20_NewFromBuf 2 1; C20_NewFromBuf 4 1; C20_NewBadBuffer false 1; C20_NewBadBuffer true 2] in
+  c20_dump (fst (c20_run c20_cfg_fixed c20_init ops)) =
+    [(C20_Vec, [1#1; 2#1; 3#1; 4#1; 5#1]%Q); (C20_Arr, [5#1; 3#1; 1#1]%Q); (C20_Vec, [5#1; 3#1]%Q); (C20_Vec, [5#1; 3#1; 1#1; 0]%Q)] /\
+  skipn 4 (snd (c20_run c20_cfg_fixed c20_init ops)) = [C20_ObsExc C20_ValueError; C20_ObsExc C20_ValueError].
+Proof. vm_compute; split; reflexivity. Qed.
+
+(* ---- iteration: list(v) uses the sequence protocol (__getitem__(0), (1), ... until IndexError): it stops exactly at n and
+   yields the entries in order, for every n, for vectors and views *)
+Theorem C20_iteration : forall k H cells, c20_iter_loop (S (List.length cells)) k H cells 0 = Some (c20_read_all H cells).
+Proof. exact P_iter. Qed.
+Print Assumptions C20_iteration.
+
+(* ---- in-place vs out-of-place: an operation that is not in-place never changes the entries of ANY existing object ... *)
+Theorem C20_out_of_place_frame : forall cfg st op p, c20_wf st -> c20_mutating op = false -> In p (c20_regs st) ->
+  c20_vals (fst (c20_step_reg cfg st op)) p = c20_vals st p.
+Proof. exact P_pure_frame. Qed.
+Print Assumptions C20_out_of_place_frame.
+
+(* ... and an in-place operation (indexed / slice assignment, += -= *= /= assign, writes through a NumPyVector) changes
+   no register and no cell outside its target object *)
+Theorem C20_in_place_frame : forall cfg st op r o, c20_inv st -> cfg_npv_stride cfg = true ->
+  c20_target op = Some r -> nth_error (c20_regs st) r = Some o ->
+  let st' := fst (c20_step_reg cfg st op) in
+  c20_regs st' = c20_regs st /\ List.length (c20_H st') = List.length (c20_H st) /\
+  forall a, ~ In a (c20_cells o) -> c20_read (c20_H st') a = c20_read (c20_H st) a.
+Proof. exact P_mutating_frame. Qed.
+Print Assumptions C20_in_place_frame.
+
+Theorem C20_inv_run : forall cfg ops, c20_inv (fst (c20_run cfg c20_init ops)).
+Proof. intros cfg ops. exact (P_run_inv cfg ops c20_init P_init_inv). Qed.
+Print Assumptions C20_inv_run.
+
+Example C20_frame_nonvacuous :
+  c20_mutating (C20_Add 0 1) = false /\ c20_mutating (C20_IAdd 0 1) = true /\ c20_target (C20_SetSlice 2 None None None []) = Some 2%nat /\
+  c20_target (C20_Neg 0) = None.
+Proof. vm_compute; repeat split; reflexivity. Qed.
+
+(* ---- "arithmetic with ... scalars": the one-entry and the int/float special cases of the overload sets *)
+Theorem C20_ops_scalar_cases : forall cfg st r o, nth_error (c20_regs st) r = Some o -> c20_k o = C20_Vec ->
+  (c20_size o = 1%nat -> forall k q,
+     c20_step cfg st (C20_AddI r k) = c20_push_new st C20_Vec (c20_vadds (inject_Z k) (c20_vals st o)) /\
+     c20_step cfg st (C20_SubI r k) = c20_push_new st C20_Vec (c20_vsubs (inject_Z k) (c20_vals st o)) /\
+     c20_step cfg st (C20_RAddI r k) = c20_push_new st C20_Vec (map (fun x => c20_qadd (inject_Z k) x) (c20_vals st o)) /\
+     c20_step cfg st (C20_RSubI r k) = c20_push_new st C20_Vec (map (fun x => c20_qsub (inject_Z k) x) (c20_vals st o)) /\
+     c20_step cfg st (C20_AddF r q) = c20_push_new st C20_Vec (c20_vadds q (c20_vals st o)) /\
+     c20_step cfg st (C20_SubF r q) = c20_push_new st C20_Vec (c20_vsubs q (c20_vals st o)) /\
+     c20_step cfg st (C20_RAddF r q) = c20_push_new st C20_Vec (map (fun x => c20_qadd q x) (c20_vals st o)) /\
+     c20_step cfg st (C20_RSubF r q) = c20_push_new st C20_Vec (map (fun x => c20_qsub q x) (c20_vals st o)) /\
+     c20_step cfg st (C20_MulI r k) = (st, C20_ObsScalar (c20_dot (c20_vals st o) [inject_Z k])) /\
+     c20_step cfg st (C20_RMulI r k) = (st, C20_ObsScalar (c20_dot (c20_vals st o) [inject_Z k]))) /\
+  (c20_size o <> 1%nat -> forall k q,
+     c20_step cfg st (C20_AddI r 0) = (st, C20_ObsAlias r) /\ c20_step cfg st (C20_SubI r 0) = (st, C20_ObsAlias r) /\
+     c20_step cfg st (C20_RAddI r 0) = (st, C20_ObsAlias r) /\
+     c20_step cfg st (C20_RSubI r 0) = c20_push_new st C20_Vec (c20_vneg (c20_vals st o)) /\
+     (k <> 0%Z -> c20_step cfg st (C20_AddI r k) = (st, C20_ObsExc C20_ValueError) /\ c20_step cfg st (C20_SubI r k) = (st, C20_ObsExc C20_ValueError) /\
+                  c20_step cfg st (C20_RAddI r k) = (st, C20_ObsExc C20_ValueError) /\ c20_step cfg st (C20_RSubI r k) = (st, C20_ObsExc C20_ValueError)) /\
+     c20_step cfg st (C20_AddF r q) = (st, C20_ObsExc C20_TypeError) /\ c20_step cfg st (C20_RSubF r q) = (st, C20_ObsExc C20_TypeError) /\
+     c20_step cfg st (C20_MulI r k) = c20_push_new st C20_Vec (c20_vscale (inject_Z k) (c20_vals st o)) /\
+     c20_step cfg st (C20_RMulI r k) = c20_push_new st C20_Vec (c20_vscale (inject_Z k) (c20_vals st o))).
+Proof. exact P_scalar_cases. Qed.
+Print Assumptions C20_ops_scalar_cases.
+
+(* ---- copying: v.copy() is type(v)(v) (fix 5aaab64); refuted for the code before it *)
+Theorem C20_copy_method : forall cfg st r, cfg_copy_self cfg = true ->
+  c20_step cfg st (C20_CopyMeth r) = c20_step cfg st (C20_CopyCtor r).
+Proof. exact P_copy_method. Qed.
+Print Assumptions C20_copy_method.
+
+Theorem C20_copy_method_refuted : exists st r,
+  c20_wf st /\ c20_step c20_cfg_current st (C20_CopyMeth r) <> c20_step c20_cfg_current st (C20_CopyCtor r).
+Proof. exact P_copy_method_refuted. Qed.
+Print Assumptions C20_copy_method_refuted.
+
+(* ---- slicing with negative steps: v[::-1] is the reversal for every n; every slice object addresses cells of its parent
+   (so writes are visible both ways by C20_alias_write_seen) and shows the parent's entries at the slice positions *)
+Theorem C20_slice_reverse : forall n, c20_slice_indices n None None (Some (-1)%Z) = C20_Ok (rev (seq 0 n)).
+Proof. exact P_slice_reverse. Qed.
+Print Assumptions C20_slice_reverse.
+
+Theorem C20_slice_general_form : forall n a b c idx, c20_slice_indices n a b c = C20_Ok idx ->
+  exists (A st : Z) (len : nat), idx = map (fun k : nat => Z.to_nat (A + Z.of_nat k * st)) (seq 0 len) /\
+    forall k : nat, (k < len)%nat -> (0 <= A + Z.of_nat k * st < Z.of_nat n)%Z.
+Proof. exact c20_slice_form. Qed.
+Print Assumptions C20_slice_general_form.
+
+Theorem C20_alias_slice : forall cfg st r o a b c idx, nth_error (c20_regs st) r = Some o ->
+  c20_slice_indices (c20_size o) a b c = C20_Ok idx ->
+  let v := {| c20_k := C20_Arr; c20_cells := map (fun j => nth j (c20_cells o) 0%nat) idx |} in
+  c20_step cfg st (C20_Slice r a b c) =
+    ({| c20_H := c20_H st; c20_regs := c20_regs st ++ [v] |}, C20_ObsObj C20_Arr (map (fun j => nth j (c20_vals st o) 0%Q) idx)) /\
+  c20_view_of v o.
+Proof. exact P_slice_shares. Qed.
+Print Assumptions C20_alias_slice.
+
+(* ---- TupleVector: rejections (negative index, index >= n, value of another type) and assignment *)
+Theorem C20_tuple_reject : forall (x : list c20_tval),
+  (forall i, (i < 0)%Z -> c20_tv_getitem x i = C20_Exc C20_TypeError /\ forall v, c20_tv_setitem x i v = C20_Exc C20_TypeError) /\
+  (forall i v, (Z.of_nat (List.length x) <= i)%Z -> c20_tv_setitem x i v = C20_Exc C20_IndexError) /\
+  (forall i v, (0 <= i < Z.of_nat (List.length x))%Z -> c20_tv_cast (c20_tv_type (nth (Z.to_nat i) x (C20_TInt 0))) v = None ->
+     c20_tv_setitem x i v = C20_Exc C20_RuntimeError) /\
+  (forall y, c20_tv_assign x y = y) /\
+  (forall i z, c20_tv_cast C20_TyDouble (C20_TInt z) = Some (C20_TFloat (inject_Z z)) /\ c20_tv_cast C20_TyInt (C20_TFloat i) = None).
+Proof. exact P_tuple_reject. Qed.
+Print Assumptions C20_tuple_reject.
+
+(* ---- the literals the model uses are the ones in the binding sources (coq/Params_gen.v is regenerated from the checked
+   tree on every run: an edit of an exception class / the dimension test / the neutral int / the sign factor breaks this) *)
+Theorem C20_source_literals : c20_exc_of_code c20_param_getitem_exc = C20_IndexError /\ c20_exc_of_code c20_param_setitem_exc = C20_IndexError /\
+  c20_exc_of_code c20_param_buffer_format_exc = C20_ValueError /\ c20_exc_of_code c20_param_buffer_ndim_exc = C20_ValueError /\
+  c20_param_buffer_ndim = 1%nat /\ c20_exc_of_code c20_param_scalar_exc = C20_ValueError /\ c20_param_scalar_neutral = 0%Z /\
+  c20_param_neg_factor = (-1)%Z.
+Proof. exact P_params. Qed.
+Print Assumptions C20_source_literals.
+
+(* ---- DynamicVector (no buffer): the index wrapper of python/dune/common/__init__.py (709c18d) + the C++ bounds check denote
+   the Python position for every integer and size; without the wrapper (the code before 709c18d) refuted *)
+Theorem C20_dynamic_index : forall n i, c20_dyn_index n i = c20_index_res n i.
+Proof. exact P_dyn_index. Qed.
+Print Assumptions C20_dynamic_index.
+
+Theorem C20_dynamic_index_refuted : exists n i j, c20_spec_index n i = Some j /\ c20_cpp_index n i <> c20_index_res n i.
+Proof. exact P_dyn_index_refuted. Qed.
+Print Assumptions C20_dynamic_index_refuted.
+
+(* ---- comparison: == decides entry-wise equality of the (converted) operands, != is its negation (C20_ops_scalar) *)
+Theorem C20_compare : forall a b, List.length a = List.length b -> (c20_veq a b = true <-> Forall2 Qeq a b).
+Proof. exact P_compare. Qed.
+Print Assumptions C20_compare.
+
+(* ---- arithmetic: the entry operations are exact rational arithmetic and the vector operators act entry by entry *)
+Theorem C20_arith_exact : forall a b : Q, (c20_qadd a b == a + b /\ c20_qsub a b == a - b /\ c20_qmul a b == a * b /\ c20_qdiv a b == a / b /\
+  c20_qabs a == Qabs.Qabs a)%Q.
+Proof. exact P_arith_exact. Qed.
+Print Assumptions C20_arith_exact.
+
+Theorem C20_ops_entrywise : forall a b i, (i < List.length a)%nat -> (i < List.length b)%nat ->
+  nth i (c20_vadd a b) 0%Q = c20_qadd (nth i a 0%Q) (nth i b 0%Q) /\
+  nth i (c20_vsub a b) 0%Q = c20_qsub (nth i a 0%Q) (nth i b 0%Q) /\
+  List.length (c20_vadd a b) = Nat.min (List.length a) (List.length b) /\
+  (forall q, nth i (c20_vscale q a) 0%Q = c20_qmul (nth i a 0%Q) q /\ List.length (c20_vscale q a) = List.length a).
+Proof. exact P_entrywise. Qed.
+Print Assumptions C20_ops_entrywise.
+
+(* ---- norms: two_norm2 is the scalar product with itself; infinity_norm bounds every entry *)
+Theorem C20_two_norm2_is_dot : forall a, c20_two_norm2 a = c20_dot a a.
+Proof. exact P_two_norm2_dot. Qed.
+Print Assumptions C20_two_norm2_is_dot.
+
+Theorem C20_infinity_norm_bound : forall (a : list Q) x, In x a -> (Qabs.Qabs x <= c20_inf_norm a)%Q.
+Proof. exact P_inf_norm_bound. Qed.
+Print Assumptions C20_infinity_norm_bound.
+
+Example C20_dynamic_nonvacuous :
+  c20_dyn_index 3 (-1) = C20_Ok 2%nat /\ c20_dyn_index 3 (-4) = C20_Exc C20_IndexError /\ c20_dyn_index 3 3 = C20_Exc C20_IndexError /\
+  c20_veq [1#2; 2#1]%Q [2#4; 2#1]%Q = true /\ c20_inf_norm [3#1; -4#1; 0]%Q = (4#1)%Q.
+Proof. vm_compute; repeat split; reflexivity. Qed.
